@@ -23,8 +23,17 @@ SPEC = {
              "3-state depth-1 fiber over 3 coordinates under both formats; (ii) for three fixed tensors every subset of "
              "omitted per-rank fields x every variant of the root entry, and omitted rank entries; (iii) random tensors "
              "of depth 1-3 (canonical, dirty with explicit defaults / empty sub-fibers / all-default sub-fibers, empty, "
-             "built by fromFiber / fromUncompressed / Tensor(), default 0 or 7, own rank formats C/U) x random "
-             "specifications (C/U per rank, widths 0-64, layout, omitted fields / rank entries / root).  Per case: "
+             "built by fromFiber / fromUncompressed / Tensor() / a populate (<<) loop nest into an output declared larger "
+             "than the operand / one partition of a split fiber given a declared shape, default 0 or 7, own rank formats "
+             "C/U) x random specifications (C/U per rank, widths 0-64, layout, omitted fields / rank entries / root), 30% "
+             "of them with Fiber.setActive on random stored fibers and 40% with a history of 1-3 read-only / "
+             "value-returning public operations performed on the tensor before the Format is built (fromFiber / setRoot "
+             "snapshots of the owned root or of a sub-fiber, deepcopy, Fiber.copy, the four splits, swizzleRanks, "
+             "swapRanks, flattenRanks, ==, | & ^ -, uncompress, nested iteration, point look-ups, countValues / repr / "
+             "getShape ...); (iv) every grid tree of (i) x each single history operation x formats CU/UC/UU; (v) every "
+             "grid tree x explicit active ranges on root / rows, x populate into a 3x3 output (empty or pre-filled), x "
+             "partitions of a split, under formats CU/UC/UU.  The oracle always walks the raw tree as it is when the "
+             "Format is built and uses the declared shape.  Per case: "
              "getRoot, getTensor, getRank of every rank (before and after the other queries), getFiber and getSubTree at "
              "every stored proper prefix and at absent prefixes, all spec getters.  Non-trivial = the tree stores at "
              "least one element and at least one rank contributes a positive number of bits; distinct = distinct case."),
@@ -32,10 +41,17 @@ SPEC = {
     "min_counts": {"quick": {"evaluations": 3000, "oracle_evals": 60000, "contract_evals": 60000,
                              "getFiber_checked": 8000, "getSubTree_checked": 8000, "getRank_checked": 8000,
                              "getTensor_checked": 3000, "defaults_checked": 20000, "dirty_cases": 500,
-                             "u_absent_children": 2000, "omitted_fields": 5000},
+                             "u_absent_children": 2000, "omitted_fields": 5000,
+                             "history_cases": 3000, "history_ops": 4000, "history_contentless_subfibers_in_u_rank": 500,
+                             "active_set": 3000, "fibers_with_narrowed_active_range": 3000,
+                             "u_children_outside_active": 2000, "populate_cases": 300, "partition_cases": 200},
                    "thorough": {"evaluations": 60000, "oracle_evals": 1000000, "contract_evals": 1000000,
                                 "getFiber_checked": 100000, "getSubTree_checked": 100000, "dirty_cases": 10000,
-                                "u_absent_children": 40000, "omitted_fields": 100000}},
+                                "u_absent_children": 40000, "omitted_fields": 100000,
+                                "history_cases": 40000, "history_ops": 60000,
+                                "history_contentless_subfibers_in_u_rank": 8000, "active_set": 40000,
+                                "fibers_with_narrowed_active_range": 40000, "u_children_outside_active": 30000,
+                                "populate_cases": 6000, "partition_cases": 4000}},
     "assumptions": [
         "occupancy of a compressed fiber = number of stored elements (len of its raw coordinate list), explicit "
         "defaults and stored empty sub-fibers included",
@@ -49,6 +65,13 @@ SPEC = {
         "the tensor's default",
         "specification values are well-formed (ints, 'C'/'U', 'contiguous'/'interleaved'); rejected specs are not judged",
         "layout does not enter any footprint",
+        "a fiber's active range (Fiber.setActive, left behind by a populate, carried by a split partition) does not "
+        "enter any footprint: 'shape' in the statement is the declared shape of the rank; explicit active ranges are "
+        "kept inside [0, shape]",
+        "operations performed on the tensor before the Format is built (the history) are public and read-only / "
+        "value-returning; their results are discarded, one that raises is not judged here, and the expected footprints "
+        "are computed from the raw tree as it is afterwards - only the library's own view of that tree (rank fiber "
+        "lists, owners, rank shapes seen from the fibers) is what the history can spoil",
     ],
 }
 
@@ -153,9 +176,87 @@ def generate(rng, tier, shard, nshards, mon):
                        "default": 0, "tfmts": None, "spec": s, "sys": "omit-rank"}
             idx += 1
     mon.exhaustive["omitted-field-subsets-x-root-variants"] = True
+    # (iv) history before the query: every grid tree x every single read-only / value-returning operation
+    for tree in _grid_trees():
+        for op in _GRID_HISTORY:
+            for fmts in ("CU", "UC", "UU"):
+                if idx % nshards == shard:
+                    yield {"kind": "fmt", "build": "spec", "tree": tree, "rank_ids": ["M", "K"], "shape": [2, 2],
+                           "default": 0, "tfmts": None, "spec": _full_spec(["M", "K"], fmts, PRIMES_A),
+                           "history": [op], "sys": "grid2-history"}
+                idx += 1
+    mon.exhaustive["depth2-grid-2x2-x-single-history-op"] = True
+    # (v) active ranges different from (0, shape): set explicitly, left behind by a populate, partitions of a split
+    for tree in _grid_trees():
+        for fmts in ("CU", "UC", "UU"):
+            variants = [{"build": "spec", "shape": [3, 3], "active": {"list": al}} for al in _GRID_ACTIVE]
+            variants += [{"build": "populate", "shape": [3, 3], "ztree": zt, "ashape": [2, 2]}
+                         for zt in ([], [[2, [[2, 9]]]], [[0, [[2, 9]]], [2, []]])]
+            variants += [{"build": "partition", "shape": [3, 3], "fshape": [2, 2], "split": sp, "part": k}
+                         for sp in (["splitUniform", 1], ["splitEqual", 1]) for k in (0, 1)]
+            for v in variants:
+                if idx % nshards == shard:
+                    case = {"kind": "fmt", "tree": tree, "rank_ids": ["M", "K"], "default": 0, "tfmts": None,
+                            "spec": _full_spec(["M", "K"], fmts, PRIMES_A), "sys": "grid2-active"}
+                    case.update(v)
+                    yield case
+                idx += 1
+    mon.exhaustive["depth2-grid-2x2-x-active-ranges"] = True
     nrand = (20000 if tier == "quick" else 400000) // nshards
     for _ in range(nrand):
         yield _random_case(rng, tier)
+
+
+# single operations of the systematic history block (depth-2 tensor over a 2x2 grid)
+_GRID_HISTORY = [
+    ["snapshot"], ["snapshot-shape"], ["setroot"], ["subsnapshot", 0], ["subsnapshot", 1], ["deepcopy"],
+    ["fibercopy"], ["fibercopy-keep"], ["split", "splitUniform", 1, 0], ["split", "splitUniform", 2, 1],
+    ["split", "splitEqual", 1, 0], ["split", "splitNonUniform", [0, 1], 1], ["split", "splitUnEqual", [1, 1], 0],
+    ["swizzle", [1, 0]], ["swap", 0], ["flatten", 0, 1], ["eq"], ["binop", "|", [[0, [[1, 5]]], [1, []]]],
+    ["binop", "&", [[0, [[0, 5], [1, 5]]], [1, [[0, 5], [1, 5]]]]], ["binop", "^", [[1, [[1, 5]]]]],
+    ["binop", "-", [[0, [[0, 5]]]]], ["uncompress"], ["walk"], ["points"], ["info"],
+]
+# explicit active ranges of the systematic block: [prefix, lo, hi] (a prefix that is not stored is skipped)
+_GRID_ACTIVE = [
+    [[[], 0, 2]], [[[], 1, 3]], [[[], 1, 2]], [[[], 2, 2]], [[[0], 0, 1], [[1], 1, 3]],
+    [[[], 0, 1], [[0], 1, 2], [[1], 0, 0]],
+]
+
+
+def _random_history(rng, depth, extents, default):
+    ops = []
+    for _ in range(rng.choice([1, 1, 2, 3])):
+        pool = ["snapshot", "snapshot", "snapshot-shape", "setroot", "deepcopy", "fibercopy", "fibercopy-keep", "split",
+                "split", "eq", "binop", "uncompress", "walk", "points", "info"]
+        if depth > 1:
+            pool += ["subsnapshot", "swizzle", "swizzle", "swap", "flatten"]
+        name = rng.choice(pool)
+        if name == "subsnapshot":
+            ops.append([name, rng.randrange(4)])
+        elif name == "split":
+            d = rng.randrange(depth)
+            how = rng.choice(["splitUniform", "splitEqual", "splitNonUniform", "splitUnEqual"])
+            if how in ("splitUniform", "splitEqual"):
+                arg = rng.randint(1, 3)
+            elif how == "splitNonUniform":
+                arg = sorted(rng.sample(range(0, extents[d] + 1), rng.randint(1, min(2, extents[d] + 1))))
+            else:
+                arg = [rng.randint(1, 2) for _ in range(rng.randint(1, 3))]
+            ops.append([name, how, arg, d])
+        elif name == "swizzle":
+            perm = list(range(depth))
+            rng.shuffle(perm)
+            ops.append([name, perm])
+        elif name == "swap":
+            ops.append([name, rng.randrange(depth - 1)])
+        elif name == "flatten":
+            d = rng.randrange(depth - 1)
+            ops.append([name, d, rng.randint(1, depth - 1 - d)])
+        elif name == "binop":
+            ops.append([name, rng.choice("|&^-"), gen.rand_tree_spec(rng, extents, 0.5, rng.choice([0.0, 0.4]), default)])
+        else:
+            ops.append([name])
+    return ops
 
 
 def _random_case(rng, tier):
@@ -167,7 +268,23 @@ def _random_case(rng, tier):
     r = rng.random()
     case = {"kind": "fmt", "rank_ids": rank_ids, "default": default}
     authoritative = True
-    if r < 0.06:
+    r2 = rng.random()
+    if r2 < 0.10:
+        # an output declared with `shape`, possibly pre-filled, populated (<<) from a smaller operand
+        dirty = rng.choice([0.0, 0.3, 0.7])
+        zshape = [e + rng.choice([0, 1, 2, 3]) for e in extents]
+        case.update(build="populate", shape=zshape, ashape=list(extents),
+                    tree=gen.rand_tree_spec(rng, extents, rng.choice([0.3, 0.6, 0.9]), dirty, default),
+                    ztree=gen.rand_tree_spec(rng, zshape, 0.3, dirty, default) if rng.random() < 0.4 else [])
+    elif r2 < 0.16:
+        # one partition of a split of a free fiber, put into a tensor with a declared shape
+        how = rng.choice(["splitUniform", "splitEqual", "splitNonUniform"])
+        arg = rng.randint(1, 3) if how != "splitNonUniform" else \
+            sorted(rng.sample(range(0, extents[0] + 1), rng.randint(1, min(3, extents[0] + 1))))
+        case.update(build="partition", shape=[e + rng.choice([0, 0, 1, 2]) for e in extents], fshape=list(extents),
+                    tree=gen.rand_tree_spec(rng, extents, rng.choice([0.6, 0.9]), rng.choice([0.0, 0.3]), default),
+                    split=[how, arg], part=rng.randrange(4))
+    elif r < 0.06:
         case.update(build="empty", tree=[], shape=[e + rng.randint(0, 2) for e in extents])
     elif r < 0.18:
         nest = gen.rand_nest(rng, extents, rng.choice([0.2, 0.5, 0.9]), default)
@@ -179,6 +296,10 @@ def _random_case(rng, tier):
         case.update(build="spec", tree=tree,
                     shape=[e + rng.choice([0, 0, 1, 2]) for e in extents] if authoritative else None)
     case["tfmts"] = [rng.choice("CU") for _ in rank_ids] if rng.random() < 0.25 else None
+    if rng.random() < 0.3:
+        case["active"] = {"p": rng.choice([0.3, 0.7, 1.0]), "seed": rng.randrange(1 << 30)}
+    if rng.random() < 0.4:
+        case["history"] = _random_history(rng, depth, extents, default)
     # ---- the specification
     mode = rng.choice(["random", "random", "distinct", "sparse"])
     p_omit = rng.choice([0.0, 0.0, 0.3, 0.6])
@@ -238,6 +359,7 @@ class Model:
         self.root = tensor.__dict__.get("_root")
         self.ranks = list(tensor.ranks)
         self.u_absent = 0
+        self.u_outside_active = 0
 
     def fiber_bits(self, d, fiber):
         e = self.spec[self.rank_ids[d]]
@@ -280,10 +402,13 @@ class Model:
             return total
         if self.spec[self.rank_ids[d]]["format"] == "U":
             stored = {} if fiber is None else dict(zip(fiber.coords, fiber.payloads))
+            lo, hi = (0, self.shape[d]) if fiber is None else fiber.getActive()     # for the coverage counter only
             for c in range(self.shape[d]):
                 child = stored.get(c)
                 if child is None:
                     self.u_absent += 1
+                if not lo <= c < hi:
+                    self.u_outside_active += 1
                 total += self.subtree_bits(d + 1, child)
         elif fiber is not None:
             for child in fiber.payloads:
@@ -346,9 +471,156 @@ def _install(mon):
 # ------------------------------------------------------------------------------------------
 # run
 # ------------------------------------------------------------------------------------------
+class _UnknownOp(Exception):
+    pass
+
+
+def _populate(z, a, d, depth):
+    """The usual output loop nest: z << a on every level, += on the leaves."""
+    for _, (z_ref, a_val) in z << a:
+        if d == depth - 1:
+            z_ref += a_val
+        else:
+            _populate(z_ref, a_val, d + 1, depth)
+
+
+def _stored_fibers(root):
+    """[(prefix, depth, fiber)] of the stored tree, raw walk, parents first."""
+    out = []
+
+    def walk(f, d, prefix):
+        out.append((prefix, d, f))
+        for c, p in zip(list(f.coords), list(f.payloads)):
+            if isinstance(p, Fiber):
+                walk(p, d + 1, prefix + (c,))
+    walk(root, 0, ())
+    return out
+
+
+def _set_active(case, t):
+    """Fiber.setActive on stored fibers: an explicit list, or each fiber with probability p (seeded by the case)."""
+    import random
+    act = case["active"]
+    fibers = _stored_fibers(t.getRoot())
+    shape = case["shape"]
+    n = 0
+    if "list" in act:
+        where = {prefix: f for prefix, _, f in fibers}
+        for prefix, lo, hi in act["list"]:
+            f = where.get(tuple(prefix))
+            if f is not None:
+                f.setActive((lo, hi))
+                n += 1
+        return n
+    rng = random.Random(act["seed"])
+    for _, d, f in fibers:
+        if rng.random() < act["p"]:
+            top = shape[d] if shape is not None else (max(f.coords) + 1 if f.coords else 1)
+            lo = rng.randint(0, top)
+            f.setActive((lo, rng.randint(lo, top)))
+            n += 1
+    return n
+
+
+def _history_op(t, op, case):
+    """One read-only / value-returning public operation on the tensor; the result is discarded."""
+    rids, shape, default = case["rank_ids"], case["shape"], case["default"]
+    depth = len(rids)
+    low = [r.lower() + "x" for r in rids]
+    root = t.getRoot()
+    name = op[0]
+    if name == "snapshot":
+        Tensor.fromFiber(rank_ids=low, fiber=root)
+    elif name == "snapshot-shape":
+        Tensor.fromFiber(rank_ids=low, fiber=root, shape=list(shape) if shape else None, default=default)
+    elif name == "setroot":
+        t2 = Tensor(rank_ids=low, shape=list(shape), default=default) if shape else Tensor(rank_ids=low, default=default)
+        t2.setRoot(root)
+    elif name == "subsnapshot":
+        subs = [p for p in root.getPayloads() if isinstance(p, Fiber)]
+        if subs:
+            Tensor.fromFiber(rank_ids=low[1:], fiber=subs[op[1] % len(subs)])
+    elif name == "deepcopy":
+        copy.deepcopy(t)
+    elif name == "fibercopy":
+        root.copy(preserve_owner=False)
+    elif name == "fibercopy-keep":
+        root.copy()
+    elif name == "split":
+        getattr(t, op[1])(op[2], depth=op[3])
+    elif name == "swizzle":
+        t.swizzleRanks([rids[i] for i in op[1]])
+    elif name == "swap":
+        t.swapRanks(depth=op[1])
+    elif name == "flatten":
+        t.flattenRanks(depth=op[1], levels=op[2])
+    elif name == "eq":
+        t == copy.deepcopy(t)       # noqa
+        t == Tensor(rank_ids=list(rids), default=default)       # noqa
+        root == root.copy(preserve_owner=False)     # noqa
+    elif name == "binop":
+        other = gen.fiber_from_spec(op[2], default=default)
+        if op[1] == "|":
+            root | other            # noqa
+        elif op[1] == "&":
+            root & other            # noqa
+        elif op[1] == "^":
+            root ^ other            # noqa
+        else:
+            root - other            # noqa
+    elif name == "uncompress":
+        root.uncompress()
+    elif name == "walk":
+        def walk(f, d):
+            for c, p in f:
+                if isinstance(p, Fiber):
+                    walk(p, d + 1)
+            for c, p in f.iterActive():
+                break
+            if shape is not None:
+                for c, p in f.iterShape():
+                    if isinstance(p, Fiber) and d + 1 < depth:
+                        for _ in p.iterOccupancy():
+                            break
+                for c, p in f.iterActiveShape():
+                    pass
+        walk(root, 0)
+    elif name == "points":
+        ext = shape if shape is not None else [4] * depth
+        for pt in itertools.islice(itertools.product(*[range(e) for e in ext]), 200):
+            t.getPayload(*pt)
+            t.getPayload(*pt[:-1]) if depth > 1 else None
+        for c in range(ext[0]):
+            root.getPayload(c, start_pos=0)
+    elif name == "info":
+        t.countValues()
+        repr(t)
+        str(t)
+        t.getShape()
+        root.getShape()
+        root.isEmpty()
+        len(root)
+        root.maxCoord()
+        root.nonEmpty()
+    else:
+        raise _UnknownOp(repr(op))
+
+
 def _build(case):
     rids, d = case["rank_ids"], case["default"]
-    if case["build"] == "empty":
+    if case["build"] == "populate":
+        a = gen.tensor_from_spec(case["tree"], rids, shape=case["ashape"], default=d)
+        if case["ztree"]:
+            t = gen.tensor_from_spec(case["ztree"], rids, shape=case["shape"], default=d)
+        else:
+            t = Tensor(rank_ids=list(rids), shape=list(case["shape"]), default=d)
+        _populate(t.getRoot(), a.getRoot(), 0, len(rids))
+    elif case["build"] == "partition":
+        f = gen.fiber_from_spec(case["tree"], default=d, shape=case["fshape"])
+        parts = [p for p in getattr(f, case["split"][0])(case["split"][1]).getPayloads() if isinstance(p, Fiber)]
+        part = parts[case["part"] % len(parts)] if parts else f
+        t = Tensor.fromFiber(rank_ids=list(rids), fiber=part, shape=list(case["shape"]), default=d)
+    elif case["build"] == "empty":
         t = Tensor(rank_ids=list(rids), shape=list(case["shape"]), default=d)
     elif case["build"] == "nest":
         t = Tensor.fromUncompressed(rank_ids=list(rids), root=copy.deepcopy(case["nest"]), shape=list(case["shape"]),
@@ -384,6 +656,20 @@ def run_case(case, mon):
     ok, t = _call(mon, "build-tensor", _build, case)
     if not ok:
         return
+    if case.get("active"):
+        mon.count("active_set", _set_active(case, t))
+    # history before the query: the results are discarded, an operation that raises is not this property's business
+    for op in case.get("history") or []:
+        mon.count("history_ops")
+        try:
+            _history_op(t, op, case)
+        except BaseException as e:      # noqa
+            if isinstance(e, (KeyboardInterrupt, _UnknownOp)):
+                raise
+            mon.count("history_op_raised")
+    if case.get("history"):
+        mon.count("history_cases")
+    # the oracle is built from the raw tree as it is now and from the declared shape
     model = Model(t, raw_spec, rids, case["shape"], case["default"])
     by_depth = model.fibers_by_depth()
     stored = sum(len(f.coords) for fs in by_depth for f in fs)
@@ -391,6 +677,18 @@ def run_case(case, mon):
         any((not isinstance(p, Fiber)) and unbox(p) == case["default"] for f in by_depth[-1] for p in f.payloads)
     if dirty:
         mon.count("dirty_cases")
+    if case["build"] in ("populate", "partition"):
+        mon.count(case["build"] + "_cases")
+    # coverage of the two situations the widened domain is about (counters only, nothing is judged here):
+    # fibers whose active range is not (0, declared shape), and - after a history - stored sub-fibers without
+    # content in a rank the specification makes uncompressed
+    if model.shape is not None:
+        mon.count("fibers_with_narrowed_active_range",
+                  sum(1 for d, fs in enumerate(by_depth) for f in fs if tuple(f.getActive()) != (0, model.shape[d])))
+    if case.get("history"):
+        mon.count("history_contentless_subfibers_in_u_rank",
+                  sum(1 for d, fs in enumerate(by_depth) if d > 0 and model.spec[rids[d]]["format"] == "U"
+                      for f in fs if not model.has_content(f)))
     _CTX["model"], _CTX["tensor"] = model, t
     try:
         _run_queries(case, mon, t, model, by_depth, stored)
@@ -496,9 +794,10 @@ def _run_queries(case, mon, t, model, by_depth, stored):
                       f"{'absent' if f is None else str(len(f.coords)) + ' stored elements'})")
         ok, got = _call(mon, "getSubTree", fmt.getSubTree, *prefix)
         if ok and judged:
-            before = model.u_absent
+            before, before_o = model.u_absent, model.u_outside_active
             exp = model.subtree_bits(d, f)
             mon.count("u_absent_children", model.u_absent - before)
+            mon.count("u_children_outside_active", model.u_outside_active - before_o)
             mon.count("getSubTree_checked")
             below = "".join(want[r]["format"] for r in rids[d:])
             mon.check(_is_int(got) and got == exp, f"getSubTree:{below}" + (":absent" if absent else ""),
